@@ -429,11 +429,15 @@ pub fn parse_multiline_text(
     max_lines: usize,
     max_line_length: usize,
 ) -> Result<Vec<String>, ParseError> {
-    let lines: Vec<String> = input
-        .lines()
-        .map(|s| s.to_string())
-        .filter(|s| !s.is_empty())
-        .collect();
+    let lines: Vec<String> = input.lines().map(|s| s.to_string()).collect();
+
+    // A line of a narrative has at least one character; dropping an empty line silently
+    // would change the text (and let an over-long narrative through).
+    if lines.iter().any(|s| s.is_empty()) {
+        return Err(ParseError::InvalidFormat {
+            message: "Text contains an empty line".to_string(),
+        });
+    }
 
     if lines.len() > max_lines {
         return Err(ParseError::InvalidFormat {
